@@ -66,6 +66,7 @@ Record params := {
                                  is followed by return (the model assumes it; params_ok demands it) *)
   p_item_ok : N; p_item_full : N; p_item_bad : N;                (* batch item statuses *)
   p_env_map : bool; p_env_msgp : bool;   (* processOTLPRequest / ...BatchMsgp propagate the lookup error *)
+  p_grpc_trace_auth_first : bool;        (* customTraceExportHandler checks acceptance before it decodes the message *)
   p_ot_auth : N; p_ot_other : N;         (* postOTLPTrace: not accepted; error not otherwise classified *)
   p_ol_auth : N; p_ol_translate : N; p_ol_process : N   (* postOTLPLogs *)
 }.
@@ -83,6 +84,14 @@ Definition err_status (name : string) : N :=
 (* (status, returns) of the error report that follows a call to [callee] in a handler *)
 Definition step (tbl : list (string * (string * bool))) (callee : string) : N * bool :=
   match slookup callee tbl with Some (e, ret) => (err_status e, ret) | None => (0, false)%N end.
+
+(* does "accept" come before "translate" (= dec(in)) in the extracted step order? *)
+Fixpoint accept_before_translate (l : list string) : bool :=
+  match l with
+  | [] => false
+  | s :: r => if String.eqb s "accept" then true else if String.eqb s "translate" then false
+              else accept_before_translate r
+  end.
 
 Definition gen_params : params := {|
   p_auth := fst (step c23_auth_steps "keycfg.IsAccepted");
@@ -103,6 +112,7 @@ Definition gen_params : params := {|
   p_item_ok := c23_item_ok; p_item_full := c23_item_full; p_item_bad := c23_item_bad;
   p_env_map := String.eqb c23_otlp_env_ret_map "err";
   p_env_msgp := String.eqb c23_otlp_env_ret_msgp "err";
+  p_grpc_trace_auth_first := accept_before_translate c23_grpc_trace_script;
   p_ot_auth := c23_otlp_trace_auth; p_ot_other := c23_otlp_trace_other;
   p_ol_auth := c23_otlp_logs_auth; p_ol_translate := c23_otlp_logs_translate; p_ol_process := c23_otlp_logs_process
 |}.
@@ -112,7 +122,7 @@ Definition pinned_params : params := {|
   p_auth := 401; p_e_body := 500; p_e_req := 400; p_e_proc := 400;
   p_b_body := 500; p_b_ds := (400, false); p_b_env := (400, false); p_b_parse := 400;
   p_others_return := true; p_item_ok := 202; p_item_full := 429; p_item_bad := 400;
-  p_env_map := false; p_env_msgp := false;
+  p_env_map := false; p_env_msgp := false; p_grpc_trace_auth_first := false;
   p_ot_auth := 401; p_ot_other := 500; p_ol_auth := 401; p_ol_translate := 500; p_ol_process := 500 |}%N.
 
 (* what the property needs of the parameters *)
@@ -222,10 +232,12 @@ Definition h_otlp_logs_http (p : params) (r : request) : list action :=
   else let '(acts, failed) := otlp_process (p_env_map p) r in
        acts ++ [AHdr (if failed then p_ol_process p else 200)].
 
-(* gRPC: the message is decoded before the handler body runs *)
-Definition h_otlp_grpc (propagates : bool) (r : request) : list action :=
+(* gRPC: grpc-go decodes the message before a generated handler runs (logs); the custom trace handler
+   decodes it itself, after ([auth_first]) or before its acceptance check *)
+Definition h_otlp_grpc (propagates auth_first : bool) (r : request) : list action :=
   let f := r_f r in let x := r_ext r in
-  if f_parse f then [AHdr (x_grpc_internal x)]
+  if auth_first && f_auth f then [AHdr (x_grpc_unauth x)]
+  else if f_parse f then [AHdr (x_grpc_internal x)]
   else if f_auth f then [AHdr (x_grpc_unauth x)]
   else let '(acts, failed) := otlp_process propagates r in
        acts ++ [AHdr (if failed then x_grpc_internal x else 0)].
@@ -236,8 +248,8 @@ Definition handle (p : params) (r : request) : list action :=
   | EpBatch => with_auth p r (h_batch p r)
   | EpOtlpTraceHttp => h_otlp_trace_http p r
   | EpOtlpLogsHttp => h_otlp_logs_http p r
-  | EpOtlpTraceGrpc => h_otlp_grpc (p_env_msgp p) r
-  | EpOtlpLogsGrpc => h_otlp_grpc (p_env_map p) r
+  | EpOtlpTraceGrpc => h_otlp_grpc (p_env_msgp p) (p_grpc_trace_auth_first p) r
+  | EpOtlpLogsGrpc => h_otlp_grpc (p_env_map p) false r
   end.
 
 (* ---- what a client and the downstream components observe ---------------------------------------- *)
